@@ -186,7 +186,7 @@ impl<'a, 'b> Syn<'a, 'b> {
         if self.o.luau && self.o.types && self.t.bool(12) {
             self.stat("type_instantiation");
             let n = 1 + self.t.choose(2);
-            let types = (0..n).map(|_| TypeArg::Type(self.ty(1))).collect();
+            let types = (0..n).map(|_| TypeArg::Type(unparen(self.ty(1)))).collect();
             f = Expr::Instantiate { expr: Box::new(f), types };
         }
         match self.t.weighted(&[8, 1, 1]) {
@@ -360,7 +360,8 @@ impl<'a, 'b> Syn<'a, 'b> {
             let mut v = vec![];
             for _ in 0..n {
                 v.push(match self.t.weighted(&[8, 1, 1, 1]) {
-                    0 => TypeArg::Type(self.ty(d - 1)),
+                    // a parenthesised type in argument position reads back as a one-element pack
+                    0 => TypeArg::Type(unparen(self.ty(d - 1))),
                     1 => TypeArg::Pack(TypePack { types: vec![self.ty(d - 1), self.ty(d - 1)], tail: None }),
                     2 => TypeArg::Variadic(Box::new(self.ty(d - 1))),
                     _ => TypeArg::GenericPack("R".into()),
@@ -396,7 +397,13 @@ impl<'a, 'b> Syn<'a, 'b> {
                         1 => TableTypeItem::StrProp { access, key: b"key".to_vec(), ty: self.ty(d - 1) },
                         _ => {
                             has_indexer = true;
-                            TableTypeItem::Indexer { access, key: self.ty(d - 1), value: self.ty(d - 1) }
+                            // an indexer whose key is a string singleton is only distinguishable from
+                            // a string property by parentheses: not generated
+                            let key = match unparen(self.ty(d - 1)) {
+                                Type::Str(_) => Type::Name(TypeName { name: "string".into(), params: None }),
+                                k => k,
+                            };
+                            TableTypeItem::Indexer { access, key, value: self.ty(d - 1) }
                         }
                     });
                 }
@@ -460,14 +467,14 @@ impl<'a, 'b> Syn<'a, 'b> {
 
     fn ret_ty(&mut self, d: usize) -> ReturnType {
         match self.t.weighted(&[6, 3, 1, 1]) {
-            0 => ReturnType::Type(self.ty(d)),
+            0 => ReturnType::Type(unparen(self.ty(d))),
             1 => {
                 let n = self.t.choose(3);
                 let types: Vec<Type> = (0..n).map(|_| self.ty(d.saturating_sub(1))).collect();
                 let tail = if self.t.bool(50) { Some(Box::new(VariadicAnnotationPack::Variadic(self.ty(0)))) } else { None };
                 // a one-element pack without tail reads back as a parenthesised type: avoid
                 if types.len() == 1 && tail.is_none() {
-                    return ReturnType::Type(types.into_iter().next().unwrap());
+                    return ReturnType::Type(unparen(types.into_iter().next().unwrap()));
                 }
                 ReturnType::Pack(TypePack { types, tail })
             }
@@ -680,7 +687,9 @@ impl<'a, 'b> Syn<'a, 'b> {
                     if self.t.bool(100) {
                         types.push(("U".to_string(), Some(self.ty(1))));
                     }
-                    let packs = if self.t.bool(60) { vec![("R".to_string(), if self.t.bool(128) { Some(GenericPackDefault::Variadic(self.ty(0))) } else { None })] } else { vec![] };
+                    // once a parameter has a default every later one needs one too
+                    let need_default = types.iter().any(|(_, d)| d.is_some());
+                    let packs = if self.t.bool(60) { vec![("R".to_string(), if need_default || self.t.bool(128) { Some(GenericPackDefault::Variadic(self.ty(0))) } else { None })] } else { vec![] };
                     Some(GenericsWithDefaults { types, packs })
                 } else {
                     None
@@ -693,6 +702,13 @@ impl<'a, 'b> Syn<'a, 'b> {
     pub fn program(&mut self) -> Block {
         let n = self.t.choose(self.o.max_stmts + 1);
         self.block(n, self.o.max_depth.min(3))
+    }
+}
+
+fn unparen(t: Type) -> Type {
+    match t {
+        Type::Paren(inner) => unparen(*inner),
+        other => other,
     }
 }
 
